@@ -285,6 +285,17 @@ size_t make_segmentation(size_t n, size_t start, size_t end, size_t epsilon, Fin
         }
     };
 
+    if (start >= 2 && in(start - 1) == in(start - 2)) {
+        // The previous chunk ended with (or inside) a run of duplicate keys: apply the adjustment below to that run
+        if constexpr (std::is_floating_point_v<K>) {
+            K next;
+            if ((next = std::nextafter(in(start - 1), std::numeric_limits<K>::infinity())) < in(start))
+                add_point(next, start - 1);
+        } else {
+            if (in(start - 1) + 1 < in(start))
+                add_point(in(start - 1) + 1, start - 1);
+        }
+    }
     add_point(in(start), start);
     for (size_t i = start + 1; i < end - 1; ++i) {
         if (in(i) == in(i - 1)) {
